@@ -26,9 +26,9 @@ def zipPairs (ns vs : List Bytes) : List (Bytes × Bytes) := ns.zip vs
 
 def count (l : List Bytes) (x : Bytes) : Nat := (l.filter (· = x)).length
 
-/-- finding class of a request, from its shape alone (`positional-header-repeated` and
-    `subresource-duplicated` are repaired: they stay the names under which a relapse is reported, and
-    the AGREE classes of such requests carry the marks `+posrep` / `+sub`) -/
+/-- finding class of a request, from its shape alone (`positional-header-repeated`, `xamzdate-repeated`
+    and `subresource-duplicated` are repaired: they stay the names under which a relapse is reported, and
+    the AGREE classes of such requests carry the marks `+posrep` / `+xdrep` / `+sub`) -/
 def shapeClass (r : SigV2Spec.Req) : String :=
   let qnames := r.query.map (·.1)
   let hnames := r.headers.map fun h => SigV2Spec.lower h.1
@@ -149,7 +149,9 @@ def judgeSts (id mode : String) (method path : Bytes) (query : Option Bytes) (na
         let sub := if (SigV2Spec.signedParams r).isEmpty then "" else "+sub"
         let v := if vh.isSome then "+vh" else ""
         -- a repeated Content-MD5 / Content-Type / Date (the repaired region) is visible in the histogram
-        let rep := if shapeClass r = "positional-header-repeated" then "+posrep" else ""
+        -- and so is a repeated x-amz-date
+        let rep := if shapeClass r = "positional-header-repeated" then "+posrep"
+          else if shapeClass r = "xamzdate-repeated" then "+xdrep" else ""
         agree id s!"sts-{mode}{amz}{sub}{v}{rep}"
 
 /-! ### end to end -/
